@@ -34,6 +34,7 @@ type c09Case struct {
 	src2      string // second file (two-file host)
 	accept    bool
 	uncovered []string
+	dup       bool // one arm is written twice (the copy-paste slip): counts once
 }
 
 // naming scheme 1: case names that are prefixes of one another or differ only in the case of a letter
@@ -103,6 +104,22 @@ func c09Driver(maxN, hostMaxN int) func(c *explore.Chooser) *c09Case {
 		if cs.naming == 0 && cs.host == 0 && cs.n <= hostMaxN {
 			// the type of the target comes from an annotation or from inference (call result, let-bound value)
 			cs.target = c.Choose(6)
+		}
+		// a repeated arm (for the plain host / naming / target): the number of ARMS may then reach the number of
+		// cases although a case is missing - coverage is about distinct case names (after seed C09h)
+		if cs.host == 0 && cs.naming == 0 && cs.target == 0 && cs.n <= hostMaxN && !cs.deflt {
+			if d := c.Choose(len(cs.arms) + 1); d > 0 {
+				at := c.Choose(2) // directly behind the original, or as the last arm
+				arm, form := cs.arms[d-1], cs.forms[d-1]
+				if at == 0 {
+					cs.arms = append(cs.arms[:d:d], append([]int{arm}, cs.arms[d:]...)...)
+					cs.forms = append(cs.forms[:d:d], append([]int{form}, cs.forms[d:]...)...)
+				} else {
+					cs.arms = append(cs.arms, arm)
+					cs.forms = append(cs.forms, form)
+				}
+				cs.dup = true
+			}
 		}
 		covered := map[int]bool{}
 		for _, a := range cs.arms {
@@ -405,7 +422,7 @@ func checkC09(c *core.Ctx) {
 				if c.TooManyViolations() {
 					continue
 				}
-				if c09RunOne(c, fc, sc.PkgAllFoi(), dir, cs) && cs.n <= 3 && cs.host < 100 && cs.target == 0 && cs.naming == 0 {
+				if c09RunOne(c, fc, sc.PkgAllFoi(), dir, cs) && cs.n <= 3 && cs.host < 100 && cs.target == 0 && cs.naming == 0 && !cs.dup {
 					acceptedMu.Lock()
 					accepted = append(accepted, cs)
 					acceptedMu.Unlock()
